@@ -358,6 +358,32 @@ func checkC14(tier string) *Report {
 	}
 	rep.Guard(rep.Outcomes["success-ack"] > 100 && rep.Outcomes["error-ack"] > 1000, "outcome classes missing: %v", rep.Outcomes)
 	rep.Guard(nSingles > 3000, "too few mutations: %d", nSingles)
+	// ---- the same inputs through the REAL receive path (loop.go): relayer's signed MsgRecvPacket in a block, IBC core's
+	// own RecvPacket over the localhost client. Inputs are re-targeted to the loop's channel pair; inputs whose channel
+	// identifiers could not exist on a chain are left to the emulated delivery above. quick: every packet-level input and every 4th memo-level input;
+	// thorough: all of them (of the pair mutations every 16th).
+	var real []loopInput
+	for i, in := range inputs {
+		if len(in.states) == 1 && full && i%16 != 0 && !strings.HasPrefix(in.label, "foreign") {
+			continue
+		}
+		if !full && i%4 != 0 && !strings.HasPrefix(in.label, "packet") {
+			continue // quick: every packet-level input, every 4th memo-level input (thorough: all of them)
+		}
+		p := in.pkt
+		if p.Raw != nil {
+			real = append(real, loopInput{in.label, p.Raw})
+			continue
+		}
+		if p.SrcPort != "transfer" || p.DstPort != "transfer" || (p.SrcChan != "channel-9" && p.SrcChan != "channel-7") || (p.DstChan != "channel-1" && p.DstChan != "channel-0") {
+			continue
+		}
+		p.Denom = strings.Replace(p.Denom, "transfer/"+p.SrcChan+"/", "transfer/channel-1/", 1)
+		real = append(real, loopInput{in.label, p.Data()})
+	}
+	rep.Extra["real_path_inputs"] = len(real)
+	loopDeliverAll(rep, real, numWorkers())
+	rep.Guard(rep.Counters["real_path_deliveries"] > 3000, "real receive path phase too thin: %d deliveries", rep.Counters["real_path_deliveries"])
 	return rep
 }
 
